@@ -422,6 +422,39 @@ func f10cRace(k int) []string {
 		"finish"}
 }
 
+// destMuSweep: every kind of directly forwarded frame (and the window acknowledgement, and a queued
+// frame in the writer) as the holder of the s2c destMu inside a blocked write, every other user as the
+// one waiting for it, then the blocked write fails (or the client goes away, or the stall just ends
+// after another terminating event). Small and systematic: each error path of each direct write is hit
+// with somebody waiting behind it.
+func destMuSweep(emit func([]string)) {
+	holders := []string{"env deliver s2c direct : ping", "env deliver s2c direct : pong", "env deliver s2c direct : settings",
+		"env deliver s2c direct : settings-ack", "env deliver s2c direct : goaway", "env deliver s2c settings 0 : settings-iw 70000",
+		"env deliver c2s data 1 : data 1 10", "env deliver s2c own 1 : headers 2"}
+	waiters := []string{"env deliver c2s data 1 : data 1 20", "env deliver s2c direct : ping", "env deliver s2c own 1 : headers 4"}
+	ends := [][]string{
+		{"env failwrites s2c"},
+		{"env deliver c2s eof : close", "env failwrites s2c", "env unstall s2c"},
+		{"env closing", "settle - -", "env unstall s2c"},
+	}
+	for _, h := range holders {
+		for _, w := range waiters {
+			if h[:18] == w[:18] {
+				continue // the same goroutine cannot wait behind itself
+			}
+			if h[:15] == "env deliver s2c" && h[16:19] != "own" && w[:15] == "env deliver s2c" {
+				continue // the s2c reader is the holder: it reads no further s2c frame
+			}
+			for _, e := range ends {
+				ops := []string{"start", "env deliver c2s own 1 : headers 1", "settle 0 1", "env stall s2c", h, "settle - -", w, "settle - -"}
+				ops = append(ops, e...)
+				emit(append(ops, "finish"))
+				core.Count("destmu_sweep")
+			}
+		}
+	}
+}
+
 var states = []string{"idle", "mid", "zero-c2s", "zero-s2c", "long-c2s", "long-s2c", "full", "zero+full", "contended"}
 
 func (P) Gen(r *core.Rand, tier string, emit func([]string)) {
@@ -442,6 +475,7 @@ func (P) Gen(r *core.Rand, tier string, emit func([]string)) {
 			emit(early(r.Fork(), "first-settings-"+ev))
 		}
 	}
+	destMuSweep(emit)
 	if tier != "thorough" {
 		// a second, random half round
 		for _, st := range states {
